@@ -1,6 +1,8 @@
 package server
 
 import (
+	"errors"
+
 	"Havoc/pkg/agent"
 	"Havoc/pkg/handlers"
 	"Havoc/pkg/packager"
@@ -218,5 +220,48 @@ func H_c11_listener_prune() {
 		}
 	}
 	verif_assert(len(t.Listeners) == 1, "the removed listener leaves the running set")
+	verif_witness()
+}
+
+// H_c11_disconnect: an operator logs in, sends 0..1 messages, and then its transport dies -
+// with a close error 1006 or any other read error, and whether or not closing the dead socket
+// itself reports an error. Afterwards the connection is out of the client table, the
+// disconnect is recorded as the last event, and a later broadcast reaches the remaining
+// operator exactly once and the dead connection not at all.
+func H_c11_disconnect() {
+	t := verifNewTeamserver(true)
+	t.EventsList = append(t.EventsList, verifMarker(1))
+	c := verifAddClient(t, "x", false)
+	other := verifAddClient(t, "op", true)
+	var login packager.Package
+	login.Head.Event = packager.Type.InitConnection.Type
+	login.Head.User = "op1"
+	login.Body.SubEvent = packager.Type.InitConnection.OAuthRequest
+	login.Body.Info = map[string]any{"User": "op1", "Password": verifDigestHex("pw1")}
+	verifIncoming = []packager.Package{login}
+	if nondet_bool("a-message-before-the-connection-dies") {
+		verifIncoming = append(verifIncoming, verifMarker(55))
+	}
+	verifReadIs1006 = nondet_bool("read-error-is-close-1006")
+	if nondet_bool("closing-the-dead-socket-fails") {
+		verifCloseErr = errors.New("verif: close: broken pipe")
+	}
+	t.handleRequest("x")
+	verif_assert(c.Authenticated, "the operator was logged in")
+	_, still := t.Clients.Load("x")
+	verif_assert(!still, "a connection whose transport died leaves the client table")
+	n := len(t.EventsList)
+	verif_assert(n >= 1, "events are retained")
+	if n >= 1 {
+		last := t.EventsList[n-1]
+		verif_assert(last.Head.Event == packager.Type.Chat.Type, "the disconnect is recorded as the last event")
+		verif_assert(last.Body.SubEvent == packager.Type.Chat.UserDisconnected, "the last event is the operator's disconnect")
+	}
+	toDead := len(verifFramesTo(c))
+	toOther := len(verifFramesTo(other))
+	t.EventBroadcast("", verifMarker(9))
+	verif_assert(len(verifFramesTo(c)) == toDead, "nothing is written to a connection that died")
+	verif_assert(len(verifFramesTo(other)) == toOther+1, "the remaining operator gets a later event exactly once")
+	verif_no_locks_held("a dying connection leaves no client mutex held")
 	verif_witness()
 }
